@@ -2,7 +2,7 @@
    flight.  (Repaired code: is_busy looks at both machines.)  Every history from cat_init, arbitrary
    oracles; D3; `fault = false` is discharged by C03 in the supported domain. *)
 From Coq Require Import List NArith ZArith Bool Arith.
-From CatV Require Import Bytes Defs Codec Fsm Skel SkelInv SkelSim Lemmas_Ctl Lemmas_C15.
+From CatV Require Import Bytes Defs Codec Fsm Skel SkelInv SkelSim Lemmas_Ctl Lemmas_C03 Lemmas_Domain Lemmas_C15.
 Import ListNotations.
 
 Section C18.
@@ -85,3 +85,45 @@ Print Assumptions C18_busy_iff.
 Print Assumptions C18_busy_sound.
 Print Assumptions C18_busy_complete.
 Print Assumptions C18_hold_exact.
+
+(* ---------------------------------------------------------------------------------------------
+   The same, unconditionally, in the supported domain: C03 (Lemmas_C03.C03_no_fault) shows that the
+   fault flag is never raised for descriptors satisfying wf_desc, events naming pool commands
+   (valid_op / valid_icall) — so the hypothesis `fault = false` above is discharged. *)
+Section InDomain.
+Variable D : desc.
+Variables ioS muS hS : Type.
+Variable io_read : ioS -> ioS * option N.
+Variable io_write : ioS -> N -> ioS * bool.
+Variable mu_lock : muS -> muS * bool.
+Variable mu_unlock : muS -> muS * bool.
+Variable h_call : hS -> hreq -> hS * hres.
+Hypothesis no_uhold : forall hs q, unsol_req q = true -> r_code (snd (h_call hs q)) <> RC_HOLD.
+Hypothesis handlers_valid : forall hs q, Forall (valid_icall D) (r_calls (snd (h_call hs q))).
+Notation st := (Fsm.st ioS muS hS).
+Notation run := (Fsm.run D ioS muS hS io_read io_write mu_lock mu_unlock h_call).
+Notation reach m x mx h ops := (run (mkWorld ioS muS hS (init_state D m) x mx h []) ops).
+Notation JD := (J_in_domain D ioS muS hS io_read io_write mu_lock mu_unlock h_call no_uhold handlers_valid).
+
+Theorem C18_in_domain : forall m x mx h ops,
+  wf_desc D m -> Forall (valid_op D) ops ->
+  let s := st (reach m x mx h ops) in
+  (is_busy s = ST_OK ->
+     gL s = gR s /\ gS s = gR s /\ k_hold (k s) = false /\ k_cr (k s) = false /\ k_implicit (k s) = false /\
+     k_state (k s) = CS_IDLE /\ u_state (u s) = US_IDLE) /\
+  (is_hold s = ST_HOLD <-> k_state (k s) = CS_HOLD).
+Proof.
+  intros m x mx h ops Hwf Hops s. destruct (JD m x mx h ops Hwf Hops) as [_ HJ]. fold s in HJ.
+  split.
+  - intro Hb. apply C18_busy_iff in Hb. destruct Hb as [Hk Hu].
+    destruct (J_reading_settled s HJ) as [A B]; [rewrite Hk; reflexivity|].
+    repeat split; auto.
+    + destruct (k_hold (k s)) eqn:E; [|reflexivity]. apply (J_hold_iff s HJ) in E. congruence.
+    + apply (J_idle_cr s HJ Hk).
+    + destruct (k_implicit (k s)) eqn:E; [|reflexivity]. apply (J_implicit s HJ) in E. congruence.
+  - unfold is_hold. destruct (k_hold (k s)) eqn:E.
+    + split; [intros _; apply (J_hold_iff s HJ); exact E | reflexivity].
+    + split; [discriminate|]. intro H. apply (J_hold_iff s HJ) in H. congruence.
+Qed.
+End InDomain.
+Print Assumptions C18_in_domain.
